@@ -26,6 +26,9 @@ def isDecimalCh (c : Char) : Bool := inRanges Generated.pyDecimalRanges c.toNat
 /-- `s.isdigit()` : non-empty and all characters are digits -/
 def isDigit (s : Str) : Bool := !s.isEmpty && s.all isDigitCh
 
+/-- `s.isdecimal()` : non-empty and all characters are decimal digits -/
+def isDecimal (s : Str) : Bool := !s.isEmpty && s.all isDecimalCh
+
 def isAsciiDigit (c : Char) : Bool := '0' ≤ c && c ≤ '9'
 
 /-- `s.lstrip()` -/
@@ -101,11 +104,13 @@ def decimalValue? (c : Char) : Option Nat :=
   | some z => some (c.toNat - z)
   | none => none
 
-/-- `int(s)` restricted to what `rest.isdigit()` lets through: `none` = ValueError.
-    (No sign, no blanks, no underscores can be present when `isdigit()` held.) -/
-def intOfDigits? (s : Str) : Option Nat :=
-  s.foldl (fun acc c => match acc, decimalValue? c with
-    | some a, some d => some (a * 10 + d)
-    | _, _ => none) (some 0)
+def digitStep (acc : Option Nat) (c : Char) : Option Nat :=
+  match acc, decimalValue? c with
+  | some a, some d => some (a * 10 + d)
+  | _, _ => none
+
+/-- `int(s)` restricted to what `rest.isdigit()` / `rest.isdecimal()` lets through: `none` = ValueError.
+    (No sign, no blanks, no underscores can be present when that predicate held.) -/
+def intOfDigits? (s : Str) : Option Nat := s.foldl digitStep (some 0)
 
 end Py
